@@ -433,7 +433,7 @@ def recheck(case):
 def run(tier, seed):
     R = core.Report(PROP, tier, seed, 'exploration')
     V = env.VERSIONS
-    names = ('num', 'opchars', 'strchars', 'indent', 'ws', 'chars', 'contstr')
+    names = ('num', 'opchars', 'strchars', 'indent', 'ws', 'chars', 'contstr', 'ctl')
     if tier == 'quick':
         plan = [(a, 3, 0, V, None, 0) for a in names]
         plan += [(a, 4, 4, ['3.8', '3.11', '3.12', '3.14'], None, 0) for a in ('num', 'opchars', 'indent', 'contstr')]
